@@ -889,3 +889,13 @@ def c16_l(ctx):
            ctx.fn('elfi.methods.utils:normalize_weights')]
     scale_free_sweep(ctx, fns, 'the diagnostic is no longer invariant under rescaling of the '
                                'chains (chains with a small spread are treated as constant)')
+
+
+@obligation('C16-m', 'T2', 'no result buffer takes the dtype of a caller\'s array and then receives '
+            'computed values (shared sweep of C08-l, restricted to the modules this property is '
+            'anchored in; `*_like(x)` and `dtype=x.dtype` allocations)', floor=1,
+            necessary='the result object reports what the sampler produced, not values truncated to the dtype of an argument (numpy truncates floats silently when they are assigned into an '
+                      'integer array)')
+def c16_dtype(ctx):
+    from .base import inherited_dtype_obligation
+    inherited_dtype_obligation(ctx, ['elfi.methods.results', 'elfi.methods.mcmc'])
